@@ -78,7 +78,7 @@ for f in sorted(allsrc):
         else:
             crate = rel.split("/")[1]
             pkg = {"filters": "signalo_filters", "pipes": "signalo_pipes", "sinks": "signalo_sinks", "sources": "signalo_sources", "signalo": "signalo"}.get(crate, crate)
-            c = sh("cargo check -q --offline -p %s --all-features 2>&1 | tail -3" % pkg, cwd=WT, env=dict(os.environ, CARGO_NET_OFFLINE="true"))
+            c = sh("cargo check -q --offline -p %s 2>&1 | tail -3" % pkg, cwd=WT, env=dict(os.environ, CARGO_NET_OFFLINE="true"))
             compiles = "error" not in c.stdout
             unflagged.append((rel, line, a, b, compiles, "no property reads this file" if not pids else "read by " + ",".join(pids)))
         rows.append("| %s:%d | `%s` -> `%s` | %s |" % (rel, line, a, b, hit or "**not flagged**"))
